@@ -293,6 +293,39 @@ func (r *Rec) Case(sub string, c any, nontrivial bool, labels ...string) {
 	}
 }
 
+// Current notes the case that is about to run in <scratch>/current-case.json (a replay file). If the process dies while the
+// case runs - a fatal stack overflow or an out-of-memory kill inside the library cannot be recovered - the driver finds the
+// case there, re-runs it alone and reports it.
+func Current(prop, sub string, c any) {
+	curMu.Lock()
+	defer curMu.Unlock()
+	if curFile == nil {
+		if curFailed {
+			return
+		}
+		f, err := os.OpenFile(filepath.Join(GetEnv().Scratch, "current-case.json"), os.O_CREATE|os.O_RDWR|os.O_TRUNC, 0o644)
+		if err != nil {
+			curFailed = true
+			return
+		}
+		curFile = f
+	}
+	cb, err := json.Marshal(c)
+	if err != nil {
+		return
+	}
+	b, _ := json.Marshal(ReplayFile{Property: prop, Sub: sub, Detail: "the process died while this case was running", Case: cb})
+	if _, err := curFile.WriteAt(b, 0); err == nil {
+		_ = curFile.Truncate(int64(len(b)))
+	}
+}
+
+var (
+	curMu     sync.Mutex
+	curFile   *os.File
+	curFailed bool
+)
+
 // Bulk records an arithmetic enumeration: n evaluations of which nt are distinct and non-trivial.
 func (r *Rec) Bulk(sub string, n, nt int64, labels map[string]int64) {
 	r.mu.Lock()
@@ -481,6 +514,7 @@ func (s Sub[C]) Check(t *testing.T, checks int) {
 			}
 			rec.Case(s.Name, c, nt, labels...)
 		}
+		Current(s.Prop, s.Name, c)
 		v := SafeRun(s.Run, c)
 		switch v.Kind {
 		case OK:
